@@ -27,6 +27,11 @@ WITNESS = [
     {'id': 'witness:inline-zero', 'src': {'geom': 'irregular', 'shape': [5, 4, 7], 'il': [-2, 1], 'xl': [10, 2], 'dt': 4000, 't0': 0, 'fmt': 5, 'ext': 0,
                                          'cubeseed': 5, 'valkind': 'smooth', 'hdr': {'seed': 3, 'nfields': 2, 'inside': True}, 'sorting': 2, 'holes': [1, 6, 19]},
      'rate': 4, 'bs': [4, 4, -1], 'detection': 'thorough', 'pattern': 'random', 'cost': 1},
+    # directed: the grid (132 positions = two 512-byte footer pages per header array) needs more pages than the traces present (126 = one page)
+    {'id': 'directed:footer-pages-grid-vs-traces', 'src': {'geom': 'irregular', 'shape': [12, 11, 6], 'il': [3, 2], 'xl': [20, 1], 'dt': 4000, 't0': 0, 'fmt': 5, 'ext': 0,
+                                                          'cubeseed': 11, 'valkind': 'smooth', 'hdr': {'seed': 8, 'nfields': 3, 'inside': True}, 'sorting': 2,
+                                                          'holes': [7, 30, 55, 76, 101, 125]},
+     'rate': 4, 'bs': [4, 4, -1], 'detection': 'thorough', 'pattern': 'random', 'cost': 1},
 ]
 
 
